@@ -30,6 +30,19 @@ def targeted_histories(actions):
     return out
 
 
+def repeated_queries(actions):
+    """the very same query repeated on the kept objects (e.g. a memo recorded by a call that failed)"""
+    out = []
+    for a in actions:
+        if a[2] is not None and a[0] in ("at", "partial", "partial-early", "differential-early", "located"):
+            out.append(([a], a))
+        if a[0] in ("partial", "partial-early") and a[2] is not None:
+            # after as_expression() on the same kept object
+            sw = ("as_expression", a[1], None, a[3])
+            out.append(([sw, a], a))
+    return out
+
+
 def same_answer(a, b) -> bool:
     """Identical outcome; numbers are compared up to rounding (1e-9 relative), because a late
     Partial legitimately switches to its symbolic path once as_expression() was called on it
@@ -58,6 +71,7 @@ def check(rep):
     else:
         per_final = (30, 30, 12)
     runs += tgt
+    runs += repeated_queries(actions)
     for f in actions:
         for h in sample_histories(actions, rng, *per_final):
             runs.append((h, f))
